@@ -20,6 +20,9 @@ CUR = {}
 
 def const_list(fi, name):
     """value of a local that is a list literal or `other_list + [..]` of string constants"""
+    ov = CUR.get("lists", {}).get((fi.qual, name))
+    if ov is not None:
+        return list(ov)         # a parameter of a helper, bound to a constant list at the call that is being followed
     amap = astq.assignments(fi)
     d = astq.unique_def(amap, name)
     if d is None:
@@ -195,6 +198,13 @@ def walk_block(fi, body, d, present, optional, all_sheets, out, loopkeys):
             for n in ast.iter_child_nodes(s):
                 if isinstance(n, ast.expr):
                     reads_in_expr(n, d, loopkeys, present, out, s)
+            # a package helper that receives the dict: its body is walked with the presence facts of the call site, and what it
+            # establishes (default filling, stores) holds after the call
+            for c in [x for x in ast.walk(s) if isinstance(x, ast.Call)]:
+                hp = _helper_with_dict(fi, c, d)
+                if hp is not None:
+                    callee, dparam = hp
+                    present = walk_block(callee, callee.node.body, dparam, present, optional, all_sheets, out, set())
             if isinstance(s, ast.Assign):
                 for t in s.targets:
                     k = key_of(t, d, loopkeys)
@@ -210,6 +220,46 @@ def walk_block(fi, body, d, present, optional, all_sheets, out, loopkeys):
     return present
 
 
+def _list_value(fi, e):
+    """constant list value of an argument expression (literal, sum of lists, name of a constant list)"""
+    if isinstance(e, (ast.List, ast.Tuple)) and all(isinstance(x, ast.Constant) for x in e.elts):
+        return [x.value for x in e.elts]
+    if isinstance(e, ast.BinOp) and isinstance(e.op, ast.Add):
+        a, b = _list_value(fi, e.left), _list_value(fi, e.right)
+        return a + b if a is not None and b is not None else None
+    if isinstance(e, ast.Name):
+        return const_list(fi, e.id)
+    return None
+
+
+def _helper_with_dict(fi, call, d, _depth=[0]):
+    """(callee, name of its dict parameter) when `call` hands the sheet dict `d` to a package function; the callee's parameters that
+    receive constant sheet-name lists are recorded so that its loops over them can be followed"""
+    prog = astq.PROG
+    if prog is None or _depth[0] > 3:
+        return None
+    try:
+        r = prog.resolve_call(fi, call)
+    except Exception:
+        return None
+    if not isinstance(r, FuncInfo) or r.node is fi.node or r.cls is not None:
+        return None
+    m, errs = astq.bind_args(r.node, call)
+    dparam = [p_ for p_, a_ in m.items() if isinstance(a_, ast.Name) and a_.id == d]
+    if len(dparam) != 1 or errs:
+        return None
+    # never re-bound in the helper
+    if any(isinstance(n, ast.Name) and n.id == dparam[0] and isinstance(n.ctx, ast.Store) for n in ast.walk(r.node)):
+        return None
+    for p_, a_ in m.items():
+        if isinstance(a_, ast.AST):
+            v = _list_value(fi, a_)
+            if v is not None:
+                CUR.setdefault("lists", {})[(r.qual, p_)] = v
+    CUR.setdefault("scopes", []).append((r, dparam[0]))
+    return r, dparam[0]
+
+
 def check(prog, run):
     run.rule("R-guard", "every read of an optional sheet is under a presence test / after the default-filling loop / after a store on every path", 10)
     run.rule("R-zero-base", "all line/surface index sheets of all_sheets are shifted to zero-based indices", 2)
@@ -221,6 +271,7 @@ def check(prog, run):
         f = rel(prog.mods[fi.mod].path)
         d = dict_param(fi)
         CUR["fi"] = fi
+        CUR["lists"], CUR["scopes"] = {}, []
         req = const_list(fi, "required_sheets")
         alls = const_list(fi, "all_sheets")
         if req is None or alls is None:
@@ -258,24 +309,30 @@ def check(prog, run):
             if isinstance(e, ast.Call) and astq.callee_name(prog, fi, e) == "numpy.subtract" and len(e.args) == 2 and one(e.args[1]):
                 return True
             return False
-        pmap = astq.parent_map(fi.node)
-        for n in ast.walk(fi.node):
-            hit = (isinstance(n, ast.Assign) and is_shift(n.value)) or (isinstance(n, ast.AugAssign) and isinstance(n.op, ast.Sub) and isinstance(n.value, ast.Constant) and n.value.value == 1)
-            if not hit:
-                continue
-            tgt = n.targets[0] if isinstance(n, ast.Assign) else n.target
-            if not (isinstance(tgt, ast.Subscript) and isinstance(tgt.value, ast.Name) and tgt.value.id == d):
-                continue
-            if isinstance(tgt.slice, ast.Constant):
-                shifted.add(tgt.slice.value)
-            elif isinstance(tgt.slice, ast.Name):
-                loop = astq.enclosing(pmap, n, (ast.For,))
-                while loop is not None and not (isinstance(loop.target, ast.Name) and loop.target.id == tgt.slice.id):
-                    loop = astq.enclosing(pmap, loop, (ast.For,))
-                if loop is not None:
-                    ks = [x.value for x in loop.iter.elts if isinstance(x, ast.Constant)] if isinstance(loop.iter, (ast.List, ast.Tuple)) else \
-                        (const_list(fi, loop.iter.id) if isinstance(loop.iter, ast.Name) else None)
-                    shifted |= set(ks or [])
+        scopes, seen_sc = [(fi, d)], {fi.qual}
+        for sf, sd in CUR.get("scopes", []):
+            if sf.qual not in seen_sc:
+                seen_sc.add(sf.qual)
+                scopes.append((sf, sd))
+        for sfi, sd in scopes:
+            pmap = astq.parent_map(sfi.node)
+            for n in ast.walk(sfi.node):
+                hit = (isinstance(n, ast.Assign) and is_shift(n.value)) or (isinstance(n, ast.AugAssign) and isinstance(n.op, ast.Sub) and isinstance(n.value, ast.Constant) and n.value.value == 1)
+                if not hit:
+                    continue
+                tgt = n.targets[0] if isinstance(n, ast.Assign) else n.target
+                if not (isinstance(tgt, ast.Subscript) and isinstance(tgt.value, ast.Name) and tgt.value.id == sd):
+                    continue
+                if isinstance(tgt.slice, ast.Constant):
+                    shifted.add(tgt.slice.value)
+                elif isinstance(tgt.slice, ast.Name):
+                    loop = astq.enclosing(pmap, n, (ast.For,))
+                    while loop is not None and not (isinstance(loop.target, ast.Name) and loop.target.id == tgt.slice.id):
+                        loop = astq.enclosing(pmap, loop, (ast.For,))
+                    if loop is not None:
+                        ks = [x.value for x in loop.iter.elts if isinstance(x, ast.Constant)] if isinstance(loop.iter, (ast.List, ast.Tuple)) else \
+                            (const_list(sfi, loop.iter.id) if isinstance(loop.iter, ast.Name) else None)
+                        shifted |= set(ks or [])
         missing = [k for k in idx_sheets if k not in shifted]
         run.ob("R-zero-base", fi.qual, "index sheets shifted by one", (not missing) if shifted else None, f"index sheets {idx_sheets}; shifted {sorted(shifted)}" + ("" if not missing else f"; NOT shifted: {missing}"),
                witness=str(missing), file=f, node=fi.node)
@@ -361,6 +418,25 @@ def validated(prog, run):
         if rets:
             sheet_of_elem[cf.node.name] = [_first_sheet(astq.expr_at(cf, rets[-1], e), d) for e in rets[-1].value.elts]
     by_keyword = {}      # (geometry class, keyword) -> sheet, learnt from the def_geoN route and required of the by-file route
+    # sheet -> public argument, from the dict literal that def_geoN assembles for the validation function whose sheets it names
+    sheets_of_fn = {}
+    for q in GEO:
+        cf = prog.func(q)
+        CUR["lists"] = {}
+        sheets_of_fn[cf.node.name] = set(const_list(cf, "all_sheets") or [])
+    arg_of_sheet_fn = {}
+    for cq in [q for q in prog.classes if q.endswith("geometry.mixin.GeometryMixin")]:
+        for m in prog.classes[cq].methods.values():
+            params = set(astq.params_of(m.node)[0])
+            for dn in ast.walk(m.node):
+                if isinstance(dn, ast.Dict) and dn.keys and all(isinstance(k, ast.Constant) and isinstance(k.value, str) for k in dn.keys):
+                    keys = {k.value for k in dn.keys}
+                    for fn_, sh_ in sheets_of_fn.items():
+                        if keys <= sh_ and len(keys) >= 3 and not any(keys <= o_ and o_ != sh_ and len(o_) < len(sh_) for o_ in sheets_of_fn.values()):
+                            for k, v in zip(dn.keys, dn.values):
+                                names = [z.id for z in ast.walk(v) if isinstance(z, ast.Name) and z.id in params]
+                                if names:
+                                    arg_of_sheet_fn.setdefault(fn_, {})[k.value] = names[0]
     for cq in [q for q in prog.classes if q.endswith("geometry.mixin.GeometryMixin")]:
         ci = prog.classes[cq]
         methods = sorted(ci.methods.values(), key=lambda m: (m.node.name.startswith("_"), m.node.name))
@@ -402,6 +478,8 @@ def validated(prog, run):
                     if sheet is None:
                         run.ob("R-validated", m.qual, role, None, f"`{k.arg}` <- element {pos} of {src_fn.node.name}(...): the sheet it is read from was not recognised", file=f, node=c, config=k.arg)
                         continue
+                    if not arg_of_sheet and not by_keyword.get((cname, k.arg)):
+                        arg_of_sheet = arg_of_sheet_fn.get(src_fn.node.name, {})     # the dict is assembled in another method of the class
                     if arg_of_sheet:
                         arg = arg_of_sheet.get(sheet)
                         # public names on both sides (def_geoN parameter / GeometryN field); one may abbreviate the other (cstr / cstrn)
